@@ -259,6 +259,11 @@ ConvInv == AtScen =>
     IN /\ \A e \in 1..3 : Delta(Sc.kind, Sc.fmt, v, "F")[e] + Delta(Sc.kind, Sc.fmt, v, "I")[e] = 0
        /\ {cv.el[e][1] : e \in 1..3} \ {0} = 1..BandsOf(Sc.kind)
        /\ \A e \in 1..3 : cv.el[e][2] \in (IF cv.el[e][1] = 0 THEN {0} ELSE {1, -1})
+       \* the operator convention is the decoded value times the operator's forward sign
+       /\ \A e \in 1..Len(Dec(Sc.kind, Sc.fmt)) :
+             LET d == Dec(Sc.kind, Sc.fmt)[e]
+                 t == IF Sc.kind \in {"geoid", "projected"} THEN 3 ELSE e
+             IN cv.el[t] = <<d[1], d[2] * OpSign(Sc.kind)>>
        /\ Sc.kind \in {"geoid", "projected"} => cv.el[3] = <<1, -1>>           \* heights are subtracted forward
        /\ Sc.kind = "datum" /\ Sc.fmt = "gravsoft" => Delta(Sc.kind, Sc.fmt, v, "F") = <<v.num[2], v.num[1], 0>>
 
@@ -319,7 +324,8 @@ EmitSc == AtScen =>
         effective |-> [k \in 1..Len(EffR1(Sc.list)) |-> EffR1(Sc.list)[k].fi],
         empty_amb |-> (EffR1(Sc.list) = <<>> /\ ~HasNull(Sc.list)),
         null |-> HasNull(Sc.list),
-        conv |-> Conv(Sc.kind, Sc.fmt), unit |-> UnitFactor(Conv(Sc.kind, Sc.fmt).unit),
-        pts |-> SetToSeq({Row(Sc, q) : q \in PointsOf(Sc)})
+        conv |-> Conv(Sc.kind, Sc.fmt), dec |-> Dec(Sc.kind, Sc.fmt), unit |-> UnitFactor(Conv(Sc.kind, Sc.fmt).unit),
+        deform |-> [dt |-> Duration(TRUE, 1000, 0, 0), t_epoch |-> 2000, t_obs |-> 2010, duration |-> Duration(FALSE, 0, 2000, 2010)],
+        pts |-> {Row(Sc, q) : q \in PointsOf(Sc)}
     ])>>)
 =============================================================================
